@@ -21,7 +21,7 @@ from gffutils.attributes import Attributes
 
 from pyvc.core import SInt, SBool, SStr, SSeq, Val, Lit, IntLit, Undecided, Ctx
 from pyvc.interp import Interp, LoopExit
-from pyvc.harness import install_loop_body_hook
+from pyvc.harness import install_loop_body_hook, require_loop_state
 from pyvc.sqlmodel import Splice
 from pyvc import ghostdb
 from contracts.common import bins_contract
@@ -329,6 +329,8 @@ def unit_merge_fold(U):
             z3.And(gs > me + 1, fs > me + 1), lv, replay=replay)
     U.prove("C16.fold.lemma.sorted_lower", "start-ordered input: the lower half of the overlap criterion (accumulator.start <= feature.start) always holds, so acceptance is exactly feature.start <= max end so far + 1",
             [ms <= me, fs <= fe, ms <= fs], accept == (fs <= me + 1), lv, replay=replay)
+    # side condition of the fold rule: the loop carries exactly the state the invariant speaks about
+    require_loop_state(I.FeatureDB.merge, {0: ("current_merged", "feature_children", "last_id")}, "the fold rule (C16.fold.*)")
 
 
 UNITS = [("merge_fold", unit_merge_fold)]
